@@ -200,7 +200,7 @@ def _eval_event(R, tgt, Ts, units, emp=None):
          'absent': sorted(k for k in comp if k not in R.offset and comp[k]),
          'T': [_d(T) for T in Ts], 'R': _d(c.R('%s/K' % units)), 'units': units,
          'Hon': [], 'Hoff': [], 'Gon': [], 'Goff': [], 'HkJon': [], 'HkJoff': [], 'GkJon': [], 'GkJoff': [],
-         'S': [], 'Cp': [], 'Cv': [], 'H2': [], 'G2': [], 'Hdef': [], 'Hrep': [], 'ver': [],
+         'S': [], 'Cp': [], 'Cv': [], 'H2': [], 'G2': [], 'Hdef': [], 'Hrep': [], 'ver': [], 'Hks': [], 'Gks': [],
          'Hdir': [], 'Hdir2': [], 'Gdir2': [],
          'zeros': [_d2(v) for v in (R.get_SoR(), R.get_CpoR(), R.get_CvoR(), R.get_UoRT(),
                                     R.get_AoRT(descriptors=tcomp, T=Ts[0]))],
@@ -222,6 +222,11 @@ def _eval_event(R, tgt, Ts, units, emp=None):
         e['Hdef'].append(_d2(tgt['on'].get_HoRT(T=T)))                       # use_references omitted
         e['Hrep'].append(_d2(tgt['on'].get_HoRT(T=T, use_references=True)))  # second call
         e['ver'].append(_d2(tgt['on'].get_HoRT(T=T, verbose=True)[5]))
+        # T given per species ('<species name>_kwargs'), alone and with a different global T
+        skw = {'%s_kwargs' % tgt['on'].name: {'T': T}}
+        other = Ts[1] if T is Ts[0] else Ts[0]
+        e['Hks'].append([_d2(tgt['on'].get_HoRT(**skw)), _d2(tgt['on'].get_HoRT(T=other, **skw))])
+        e['Gks'].append([_d2(tgt['on'].get_GoRT(**skw)), _d2(tgt['on'].get_GoRT(T=other, **skw))])
         hdir = R.get_HoRT(descriptors=tcomp, T=T)
         e['Hdir'].append(_d(hdir))
         e['Hdir2'].append(_d2(hdir))
@@ -586,6 +591,43 @@ def _square_singular_case(rnd, cid, descriptor, pool, rows=None, how=None):
     return _finish_case(rnd, cid, descriptor, names, ops, 'square_singular', 'equal', T0)
 
 
+def _gap_cases(rnd, limit):
+    """Deterministic family (harness/lib_c10_gap.json, built once by enumeration + filter): reference
+    sets with repeated rows (and rows that are sums of others), counts up to 8, 2-5 descriptors, whose
+    composition matrix has its round-off singular value between eps*s_max and eps*max(M,N)*s_max - the
+    band where the documented rank decision of the least-squares solver (rcond=None) matters.  The
+    band is re-checked here with this machine's LAPACK (with a margin on both sides)."""
+    import os
+    import numpy as np
+    with open(os.path.join(os.path.dirname(os.path.dirname(os.path.abspath(__file__))), 'lib_c10_gap.json')) as f:
+        mats = json.load(f)
+    eps = np.finfo(float).eps
+    keep = []
+    for rows in mats:
+        A = np.array(rows, float)
+        sv = np.linalg.svd(A, compute_uv=False)
+        r = np.linalg.matrix_rank(A)
+        if r < len(sv) and 1.05 * eps < sv[r] / sv[0] < 0.9 * eps * max(A.shape):
+            keep.append(rows)
+    rnd.shuffle(keep)
+    cases = []
+    for k, rows in enumerate(keep[:limit]):
+        n = len(rows[0])
+        names = sorted(rnd.sample(ELEMENTS, n))
+        T0 = rnd.choice([298.15, 300.0, 500.0])
+        refs = [_refspec(rnd, i, {names[c]: v for c, v in enumerate(r) if v}, T0) for i, r in enumerate(rows)]
+        how = rnd.choice(['construct', 'append', 'append', 'extend'])
+        if how == 'construct' or len(refs) < 2:
+            ops = [{'act': 'construct', 'refs': refs}]
+        elif how == 'append':                        # the repeated entry arrives later: append and refit
+            ops = [{'act': 'construct', 'refs': refs[:-1]}, {'act': 'append', 'refs': [refs[-1]]}, {'act': 'fit'}]
+        else:
+            ops = [{'act': 'construct', 'refs': refs[:1]}, {'act': 'extend', 'refs': refs[1:], 'as': 'list'},
+                   {'act': 'fit'}]
+        cases.append(_finish_case(rnd, 'q%d' % k, 'elements', names, ops, 'near_cutoff', 'equal', T0))
+    return cases
+
+
 def _random_case(rnd, cid):
     # the descriptor dictionary: elements, or any other attribute of the reference / species objects
     descriptor = 'elements' if rnd.random() < 0.6 else rnd.choice(DESCRIPTOR_ATTRS)
@@ -789,6 +831,7 @@ def run(ctx):
                                                             [[1, 2, 1], [2, 6, 0], [4, 10, 2]])
                                          for hw in ('construct', 'append', 'insert', 'extend')]):
             cases.append(_square_singular_case(rnd, 'p%d' % k, 'elements', ELEMENTS, rows=rows, how=how))
+        cases.extend(_gap_cases(rnd, ctx.pick(260, 10000)))
         for k in range(ctx.pick(500, 8000)):
             cases.append(_random_case(rnd, 'r%d' % k))
     results = core.pmap(_safe_execute, cases)
@@ -824,7 +867,7 @@ def run(ctx):
         ['calls_' + a for a in ('remove', 'setitem', 'clear', 'reload', 'given')]
         + ['reloads_via_json', 'given_without_references', 'extend_with_tuple', 'negative_indices',
            'reference_model_given_as_instance', 'references_with_phase', 'fits_with_isomers',
-           'fits_with_all_zero_descriptor', 'fits_with_1_references', 'fits_with_8_references',
+           'fits_with_all_zero_descriptor', 'fits_of_near_cutoff_rank_deficient_sets', 'fits_with_1_references', 'fits_with_8_references',
            'fits_with_1_descriptors', 'fits_with_5_descriptors', 'evals_at_T_ref', 'evals_with_no_offsets',
            'evaluations_at_T_range_ends', 'empirical_nasa', 'empirical_shomate']
         + ['reference_counts_as_' + c for c in CTYPES] + ['target_counts_as_' + c for c in CTYPES]
@@ -864,6 +907,10 @@ def run(ctx):
                     cnt['reference_model_given_as_instance'] += 1
                 if sp.get('phase'):
                     cnt['references_with_phase'] += 1
+        if case.get('shape') == 'near_cutoff':
+            cnt['fits_of_near_cutoff_rank_deficient_sets'] += sum(
+                1 for e in events if e['ev'] in ('construct', 'fit')
+                and len(e['A']) == sum(len(o.get('refs', [])) for o in case['ops']))
         if case['kind'] == 'real':
             cnt['descriptor_' + case['descriptor']] += 1
             cnt['T_ref_' + case['tmode']] += 1
